@@ -64,23 +64,27 @@ Example preparse_nonvacuous :
           (demo ++ [tk 55 ";" 33]) = PErr (User "SyntaxException" 1 33 "Semi-colon statements not allowed").
 Proof. split; [eexists; vm_compute; auto 10 | vm_compute; reflexivity]. Qed.
 
-(* LIMIT of the token-level guarantees (refutation, replayed on the implementation every run): the rewritten token
-   list is handed to tokenize.untokenize, which needs every DEDENT to be preceded by its INDENT.  The ForParser can
-   swallow an INDENT into an annotation and leave the DEDENT in the output: `for a:\n for b\n`. *)
-Fixpoint indent_balanced (ts : list token) (depth : nat) : bool :=
-  match ts with
-  | [] => true
-  | t :: r => if ttyp t =? T_INDENT then indent_balanced r (Datatypes.S depth)
-              else if ttyp t =? T_DEDENT then match depth with O => false | Datatypes.S d => indent_balanced r d end
-              else indent_balanced r depth
-  end.
+(* the documented assumption about tokenize.untokenize HOLDS for every token list: the rewritten token list keeps
+   every NEWLINE / INDENT / DEDENT / ENDMARKER of the input, in order, and adds none -- so its INDENT/DEDENT nesting is
+   balanced exactly when the input's is (the ForParser now refuses to swallow such tokens; regression input
+   `for a:\n for b\n`, formerly IndexError inside untokenize) *)
+Theorem layout_preserved : forall spec_valid spec_contains is_interface ts st,
+  gen_run settings (comment_hook spec_valid spec_contains OPT_TABLE EVM_VERSION_NAMES is_interface) settings0 ts = POk st ->
+  filter is_layout (m_res _ st) = filter is_layout ts /\
+  forall d, indent_balanced (m_res _ st) d = indent_balanced ts d.
+Proof.
+  intros sv sc ii ts st E. rewrite gen_run_eq in E.
+  pose proof (run_layout_model settings _ (comment_hook_user_facing sv sc OPT_TABLE EVM_VERSION_NAMES ii) settings0 ts st E) as L.
+  unfold lay in L. split; [exact L |]. intro d. rewrite <- (indent_balanced_lay (m_res _ st)), <- (indent_balanced_lay ts), L. reflexivity.
+Qed.
+Print Assumptions layout_preserved.
+
 Definition witness_for_for : list token :=
   [mk_token 67 "utf-8" (0, 0) (0, 0); mk_token 1 "for" (1, 0) (1, 3); mk_token 1 "a" (1, 4) (1, 5); mk_token 55 ":" (1, 5) (1, 6);
    mk_token 4 (String (Ascii.ascii_of_nat 10) "") (1, 6) (1, 7); mk_token 5 " " (2, 0) (2, 1); mk_token 1 "for" (2, 1) (2, 4);
    mk_token 1 "b" (2, 5) (2, 6); mk_token 4 (String (Ascii.ascii_of_nat 10) "") (2, 6) (2, 7); mk_token 6 "" (3, 0) (3, 0);
    mk_token 0 "" (3, 0) (3, 0)]%string.
-Theorem untokenize_precondition_refuted :
-  indent_balanced witness_for_for 0 = true /\
-  exists st, gen_run settings (comment_hook (fun _ => true) (fun _ => true) OPT_TABLE EVM_VERSION_NAMES false) settings0 witness_for_for = POk st /\
-             indent_balanced (m_res _ st) 0 = false.
-Proof. split; [vm_compute; reflexivity | eexists; split; vm_compute; reflexivity]. Qed.
+Example for_without_in_rejected :
+  gen_run settings (comment_hook (fun _ => true) (fun _ => true) OPT_TABLE EVM_VERSION_NAMES false) settings0 witness_for_for =
+  PErr (User "SyntaxException" 1 6 "invalid for loop syntax: missing `in`").
+Proof. vm_compute. reflexivity. Qed.
